@@ -421,7 +421,7 @@ struct Exec {
       const std::string fn = f.name;
       const std::string st = astate_name(w.mstate[s]);
       if (len < 0) len = 0;
-      if (len > 64) len = 64;
+      if (len > 1024) len = 1024; // the property speaks of 0..64; longer buffers are used too (complete texts)
       constexpr size_t PRE = 64, ARENA = 4096;
       static unsigned char arena[ARENA];
       std::memset(arena, 0xA5, ARENA);
